@@ -328,11 +328,44 @@ def root_of(P, f):
     return f
 
 
+def _is_anchor_fn(P, f):
+    np = f.npath
+    if np in STRUCT or np in GETTERS or np in MUTATORS:
+        return True
+    if np.startswith((CM, WCM, ST, LL, PC, LQ)):
+        return True
+    if f.vis == "pub":
+        return True
+    if f.impl_of and f.impl_of.get("trait"):
+        return True     # trait methods are called through the trait; they are owners in their own right
+    return False
+
+
+def lift_owner(P, f, depth=0, seen=None):
+    """Owners of a call site: the enclosing top-level function, or - when that is a private non-anchor helper
+    (an extract-function refactor) - the functions that call the helper, transitively."""
+    seen = seen if seen is not None else set()
+    r = root_of(P, f)
+    if r.id in seen or depth > 6:
+        return {r.npath}
+    seen.add(r.id)
+    if _is_anchor_fn(P, r):
+        return {r.npath}
+    callers = P.callers(r.id)
+    if not callers:
+        return {r.npath}
+    out = set()
+    for (cf, bb, ci) in callers:
+        out |= lift_owner(P, cf, depth + 1, seen)
+    return out
+
+
 def owners_of_calls(P, pred):
-    """{root function npath: [(fn, bb)]} of all call sites satisfying pred(ci)."""
+    """{owner function npath: [(fn, bb)]} of all call sites satisfying pred(ci) (helpers lifted to their callers)."""
     res = {}
     for (f, bb, ci) in P.call_sites(pred):
-        res.setdefault(root_of(P, f).npath, []).append((f, bb))
+        for o in lift_owner(P, f):
+            res.setdefault(o, []).append((f, bb))
     return res
 
 
